@@ -14,6 +14,30 @@ def record_case(cid, T, mods, seed, shuffle=True, origin='tlc'):
     rnd = random.Random(seed)
     atoms = treeio.Atoms(seed, exotic=True)
     root = treeio.build(T, mods, atoms, rnd if shuffle else None)
+    # provenance: a quarter of the trees come out of the tool's own export reader (which leaves its own
+    # bookkeeping in the node data) and half of those are then edited by delete_terminal, which renumbers
+    # the tokens; the answers are judged against the graph as it is after that
+    via_reader = seed % 4 == 1
+    if via_reader:
+        import copy
+        import os
+        import tempfile
+        from . import fam_io
+        T1 = copy.deepcopy(T)
+        for x in T1['nodes']:
+            for f_ in ('lemma', 'morph'):
+                if x['a'][f_] == '~':
+                    x['a'][f_] = '--'
+        fd, fn = tempfile.mkstemp(prefix='vf_nv_', suffix='.export')
+        try:
+            with os.fdopen(fd, 'w', encoding='utf-8') as f:
+                f.write(fam_io.render_export(T1, 1, False, random.Random(seed)))
+            root = next(mods['treeinput'].export(fn, 'utf-8', quiet=True))
+        finally:
+            os.unlink(fn)
+        leaves = trees.terminals(root)
+        if len(leaves) >= 2 and seed % 8 == 1:
+            trees.delete_terminal(root, leaves[rnd.randrange(len(leaves))])
     dmp = treeio.Dumper(atoms)
     G = dmp.dump(root)
     objs = list(dmp.objs)
@@ -65,7 +89,8 @@ def record_case(cid, T, mods, seed, shuffle=True, origin='tlc'):
         g_, l_ = {}, {}
         mods['grammar'].extract(treeio.build(T, mods, atoms, None), g_, l_)
         return {'gd': gd, 'refuses': refuses, 'cf': 'T' if mods['grammaranalysis'].is_contextfree(g_) else 'F'}
-    ev('three_notions', three)
+    if not via_reader:
+        ev('three_notions', three)
     if all(len(o.children) <= 2 for o in objs):
         ev('disco_order', lambda: {'left': [ix(t) for t in ta.disco_order(root, 'left')],
                                    'rightd': [ix(t) for t in ta.disco_order(root, 'rightd')]})
@@ -145,7 +170,7 @@ def record_case(cid, T, mods, seed, shuffle=True, origin='tlc'):
                     'nsent': int(ms.group(1)) if ms else -1}
         finally:
             shutil.rmtree(tmp, ignore_errors=True)
-    if seed % 40 == 0:
+    if seed % 40 == 0 and not via_reader:
         events.append(dict(analysis_cli(), a='analysis', res='ok', exc='~'))
 
     def numbering():
@@ -153,4 +178,4 @@ def record_case(cid, T, mods, seed, shuffle=True, origin='tlc'):
         return {'num': [o.data.get('num', -1) if isinstance(o.data.get('num', -1), int) else -1
                         for o in objs]}
     ev('numbering', numbering)     # last: it overwrites data['num'] of constituents
-    return {'id': cid, 'origin': origin, 'init': G, 'events': events}
+    return {'id': cid, 'origin': origin, 'init': G, 'events': events, 'via_reader': via_reader}
